@@ -332,7 +332,42 @@ def r10_catch_local_outlives_the_handler(ctx):
            "" if ok2 else f"the handler binds `{hname}` but the catch local `{local_name}` is not assigned from it before the catch body runs")
 
 
+COMPILER = "src/basilisp/lang/compiler/__init__.py"
+
+
+@rule("C01.R11", floor=1)
+def r11_every_top_level_form_yields_a_value(ctx):
+    """compile_and_exec_form unrolls a top-level `do` into its forms and returns the value of the last
+    one compiled.  If the loop can run zero times -- (do), a do holding only an unselected reader
+    conditional -- there is no last value: whatever stands for it (an assert on a sentinel, an
+    unbound local) fails on a form that means nil everywhere else.  The sequence the loop walks is
+    therefore non-empty by construction (`<unrolled> or [form]`), or the no-form case is answered
+    explicitly before the loop."""
+    fn = ctx.fn(COMPILER, "compile_and_exec_form")
+    loops = [l for l in ast.walk(fn) if isinstance(l, ast.For) and any(P.un(c.func).startswith("analyze_form") or P.un(c.func) == "gen_py_ast" for s in l.body for c in P.calls(s))]
+    if not loops:
+        raise AnalysisError("compile_and_exec_form no longer compiles its forms in a loop")
+    lp = loops[0]
+    it = lp.iter
+    if isinstance(it, ast.Name):
+        src = [a.value for a in ast.walk(fn) if isinstance(a, ast.Assign) and P.un(a.targets[0]) == it.id]
+        it = src[-1] if src else it
+
+    def non_empty(e):
+        if isinstance(e, ast.BoolOp) and isinstance(e.op, ast.Or):
+            return any(isinstance(v, (ast.List, ast.Tuple)) and v.elts for v in e.values)
+        return isinstance(e, (ast.List, ast.Tuple)) and bool(e.elts)
+    guarded_before = any(isinstance(i, ast.If) and i.lineno < lp.lineno and any(isinstance(x, ast.Return) for x in ast.walk(i)) and "do" in P.un(i.test).lower() for i in ast.walk(fn))
+    sentinel_failures = [a for a in ast.walk(fn) if isinstance(a, ast.Assert) and a.lineno > lp.lineno and "sentinel" in P.un(a.test).lower()]
+    ok = non_empty(it) or guarded_before or not sentinel_failures
+    ctx.ob("C01.R11", f"{COMPILER}::compile_and_exec_form::the compile loop runs at least once", COMPILER, lp.lineno, ok,
+           "" if ok else f"the loop walks `{P.un(lp.iter)[:50]}`, which is empty for a top-level (do); `{P.un(sentinel_failures[0].test)[:50]}` then fails",
+           witness="(do) at the REPL or in a file => AssertionError: Must compile at least one form; ((fn [] (do))) => nil")
+
+
 SELFTEST = [
+    {"name": "a top-level (do) compiles no form (the repaired defect)", "file": COMPILER, "expect": "C01.R11",
+     "old": "    unrolled_forms = list(_flatmap_forms([form])) or [form]\n", "new": "    unrolled_forms = list(_flatmap_forms([form]))\n"},
     {"name": "let* init analyzed in the parent's position (the repaired defect)", "file": ANA, "expect": "C01.R9", "nth": 0,
      "old": "                init=_analyze_value_form(value, ctx),", "new": "                init=_analyze_form(value, ctx),"},
     {"name": "host call target analyzed in the parent's position (the repaired defect)", "file": ANA, "expect": "C01.R9", "nth": 0,
